@@ -62,3 +62,71 @@ def wf_order(st, x):
     """WF(o) of an accepted order: placed, id assigned, kind/price agree, volume >= 1"""
     return z3.And(z3.Not(O(st, "placed_at", "none")[x]), z3.Not(O(st, "order_id", "none")[x]), O(st, "volume")[x] >= 1,
                   (O(st, "kind")[x] == 0) == O(st, "price", "none")[x], z3.Or(O(st, "kind")[x] == 0, O(st, "kind")[x] == 1))
+
+
+# ----------------------------------------------------------------------------- BookInv (DESIGN 3.2) over the collection views
+def etl(st, book):
+    return st.read(book, "expire_time_list")
+
+
+def bucket_dom(st, book, k):
+    return z3.Select(st.dict_dom(etl(st, book)), k)
+
+
+def bucket_list(st, book, k):
+    return z3.Select(st.dict_val(etl(st, book)), k)
+
+
+def exp_key(st, x):
+    return O(st, "placed_at")[x] + O(st, "ttl")[x]
+
+
+def top_min(st, q, is_buy):
+    """heap order seen through the views: q[0] is a member and precedes every other member"""
+    y = z3.Const("y_top", REF)
+    top = z3.Select(st.elems(q, ("ref", "Order")), 0)
+    return z3.Implies(st.length(q) > 0, z3.And(st.mem(q, top), z3.ForAll([y], z3.Implies(z3.And(st.mem(q, y), y != top), before(st, top, y, is_buy)))))
+
+
+def book_inv(st, book, tag=""):
+    x, y, k, k2 = z3.Consts("x_bi y_bi k_bi k2_bi", REF)
+    q = queue(st, book).term
+    side = st.read(book, "is_buy").term
+    time = st.read(book, "time").term
+    ttln = O(st, "ttl", "none")
+    mem = lambda o: st.mem(q, o)
+    cs = [("B0 len>=0, queue and bucket lists duplicate-free", z3.And(st.length(q) >= 0, st.nodup(q), z3.ForAll([k], z3.Implies(bucket_dom(st, book, k), st.nodup(bucket_list(st, book, k)))))),
+          ("B1 members are well-formed accepted orders of this side, not cancelled, placed no later than now",
+           z3.ForAll([x], z3.Implies(mem(x), z3.And(wf_order(st, x), O(st, "is_buy")[x] == side, z3.Not(O(st, "is_canceled")[x]), O(st, "placed_at")[x] <= time,
+                                                     z3.Implies(z3.Not(ttln[x]), O(st, "ttl")[x] >= 1))))),
+          ("B2 order ids pairwise distinct", z3.ForAll([x, y], z3.Implies(z3.And(mem(x), mem(y), x != y), O(st, "order_id")[x] != O(st, "order_id")[y]))),
+          ("B3 heap shape", st.heapok(q)),
+          ("B3 top is minimal", top_min(st, q, side)),
+          ("B4a resting order with ttl is indexed under placed_at+ttl", z3.ForAll([x], z3.Implies(z3.And(mem(x), z3.Not(ttln[x])),
+                z3.And(bucket_dom(st, book, exp_key(st, x)), st.mem(bucket_list(st, book, exp_key(st, x)), x))))),
+          ("B4b expiry index holds only resting orders under their own key", z3.ForAll([k, x], z3.Implies(z3.And(bucket_dom(st, book, k), st.mem(bucket_list(st, book, k), x)),
+                z3.And(mem(x), z3.Not(ttln[x]), exp_key(st, x) == k)))),
+          ("B5 nothing overdue rests", z3.ForAll([x], z3.Implies(z3.And(mem(x), z3.Not(ttln[x])), exp_key(st, x) >= time))),
+          ("B6 queue and bucket lists are allocated objects", z3.And(st.is_alloc(q), st.is_alloc(etl(st, book).term),
+              z3.ForAll([k], z3.Implies(bucket_dom(st, book, k), st.is_alloc(bucket_list(st, book, k)))))),
+          ("B6 separation: bucket lists are not the queue and pairwise distinct", z3.And(
+              z3.ForAll([k], z3.Implies(bucket_dom(st, book, k), bucket_list(st, book, k) != q)),
+              z3.ForAll([k, k2], z3.Implies(z3.And(bucket_dom(st, book, k), bucket_dom(st, book, k2), k != k2), bucket_list(st, book, k) != bucket_list(st, book, k2)))))]
+    return [(tag + l, f) for l, f in cs]
+
+
+def heap_order_hook(ex, st, q, popped, op):
+    """trusted heapq contract, stated over the views: after heapify/heappush/heappop the top precedes all other members;
+    heappop returns an element that precedes every remaining member. Meaningful because Order.__lt__ is a strict total order on
+    well-formed accepted orders of one side with distinct ids (task Order.compare) -- those member facts are obligations here."""
+    if q.ty[1] != ("ref", "Order"):
+        return
+    qt = q.term
+    x, y = z3.Consts("x_ho y_ho", REF)
+    if popped is not None:
+        side = O(st, "is_buy")[popped.term]
+        st.assume(z3.ForAll([y], z3.Implies(st.mem(qt, y), before(st, popped.term, y, side))))
+        st.assume(top_min(st, qt, side))       # the remainder is still a heap
+    else:
+        top = z3.Select(st.elems(qt, ("ref", "Order")), 0)
+        st.assume(top_min(st, qt, O(st, "is_buy")[top]))
